@@ -761,13 +761,25 @@ fn c12_run(cfg: &Config) -> PropRun {
     };
     let nr = rare.len() as u64;
     let nrw = rwrappers.len() as u64;
+    // quick tier: every filler with the bare program, one filler per item (rotating over the item
+    // index) inside the statement wrappers; thorough tier: the full product
+    let quick = cfg.tier == Tier::Quick;
+    let rare_total = if quick { nr * nf + nr * (nrw - 1) } else { nr * nrw * nf };
     let rare_report = ex.run_list(
         "G.rare(contexts for every rarely used statement and every built-in, hole filled with every chain of depth<=1) x statement contexts x fillers",
-        nr * nrw * nf,
+        rare_total,
         |i, buf| {
-            let filler = FILLERS[(i % nf) as usize];
-            let i = i / nf;
-            let t = rwrappers[(i / nr) as usize].replacen("{}", &rare[(i % nr) as usize], 1);
+            let (filler, wi, ri) = if quick {
+                if i < nr * nf {
+                    (FILLERS[(i % nf) as usize], 0u64, (i / nf) % nr)
+                } else {
+                    let j = i - nr * nf;
+                    (FILLERS[((j / 3) % nf) as usize], 1 + j / nr, j % nr)
+                }
+            } else {
+                (FILLERS[(i % nf) as usize], (i / nf) / nr, (i / nf) % nr)
+            };
+            let t = rwrappers[wi as usize].replacen("{}", &rare[ri as usize], 1);
             apply_filler(&t, filler, buf);
         },
         |local, input, _| {
@@ -793,7 +805,7 @@ fn c12_run(cfg: &Config) -> PropRun {
     report.distinct_nontrivial = ex.distinct_nontrivial.load(std::sync::atomic::Ordering::Relaxed);
     PropRun {
         report,
-        rule: format!("every derivation chain of the construct grammar G ({} contexts, 9 hole types) of depth <= {} with every gap filler of {{none, blank, blank+comment+newline, two adjacent comments, comment+blank, a run of 66 hidden tokens, NBSP, VT}}, and of depth <= {d} with one of these fillers per chain (rotating over the chain index); every ordered pair of programs of depth <= {dd} (and of the inline-test snippets that are error-free and closed on their own) joined by each of 10 separators (blank, nothing, LF, CRLF, TAB, FF, NBSP, U+2028, NEL, commented blank); one well-formed instance of every macro statement keyword and every argument-taking built-in function inside every statement context of depth <= 2 with every filler; a context with a hole for every rarely used macro statement and for every argument position of every built-in, the hole filled with every chain of depth <= 1, and every context filled with every leaf of a second, larger leaf set (lone % and & in text, %-escapes at the start of a %str segment, signed exponents, hex integers, symbol NOT, operands ending a line, multi-ampersand name continuations, empty parameter lists, parenthesised commas in masking arguments), inside every statement context of depth <= 1 with every filler; non-trivial = mode stack depth >= 6 reached; states/transitions = end configurations at the token boundaries of every {trace_every}th program", CONTEXTS.len(), d - 1),
+        rule: format!("every derivation chain of the construct grammar G ({} contexts, 9 hole types) of depth <= {} with every gap filler of {{none, blank, blank+comment+newline, two adjacent comments, comment+blank, a run of 66 hidden tokens, NBSP, VT}}, and of depth <= {d} with one of these fillers per chain (rotating over the chain index); every ordered pair of programs of depth <= {dd} (and of the inline-test snippets that are error-free and closed on their own) joined by each of 10 separators (blank, nothing, LF, CRLF, TAB, FF, NBSP, U+2028, NEL, commented blank); one well-formed instance of every macro statement keyword and every argument-taking built-in function inside every statement context of depth <= 2 with every filler; a context with a hole for every rarely used macro statement and for every argument position of every built-in, the hole filled with every chain of depth <= 1, and every context filled with every leaf of a second, larger leaf set (lone % and & in text, %-escapes at the start of a %str segment, signed exponents, hex integers, symbol NOT, operands ending a line, multi-ampersand name continuations, empty parameter lists, parenthesised commas in masking arguments), inside every statement context of depth <= 1 with every filler (quick tier: every filler with the bare program, one filler per item, rotating, inside the statement contexts); non-trivial = mode stack depth >= 6 reached; states/transitions = end configurations at the token boundaries of every {trace_every}th program", CONTEXTS.len(), d - 1),
         oracle: "no error at all; end-of-input configuration = ([Default], nesting 0, pending [false], no checkpoint)".into(),
     }
 }
